@@ -5,10 +5,11 @@
      doc_encode_T                  its writer, the writer-side freedoms being arguments.
    (a) C07_doc_roundtrip_T: the formalised document is consistent and decodable for every admissible choice.
    (b) C07_writes_conform_T: what the MODEL of the crate's serializers writes is accepted by the document's reader
-       and decodes to the content of the value (core types proved; composite types stated, see "partial").
-   The READ direction (a file produced from the document alone loads and answers every query) rests on (a) for the
-   well-definedness of the files and on the correspondence run of Check/C07.v + harness/src/c07.rs, which feeds such
-   files to the real `load`; its theorem over the models of the loaders is stated at the end. *)
+       and decodes to the content of the value (all documented types; composites in Props/C07_sparse.v, C07_wm.v).
+   (c) C07_reads_conform_T (Props/C07_read.v): the READ direction - the bytes of doc_encode_T c x, for every content x
+       and every admissible writer choice c (no support structures, any low width, any sufficient width), are loaded
+       by the model of the crate's `load` into a value that answers every query exactly. The correspondence run of
+       Check/C07.v + harness/src/c07.rs feeds such files to the real `load`. *)
 From Coq Require Import NArith List Bool.
 Require Import SDS.Model.Mach SDS.Model.Raw SDS.Model.IntVec SDS.Model.BitVec SDS.Model.Ser SDS.Model.SerBV.
 Require Import SDS.Model.Sparse SDS.Model.RL SDS.Model.WM.
@@ -203,13 +204,8 @@ Print Assumptions C07_writes_conform_rl.
 (* RLVector: proved, see C07_writes_conform_rl above *)
 (* WMCore / WaveletMatrix: proved, see C07_writes_conform_wmcore / C07_writes_conform_wm in Props/C07_wm.v *)
 
-(* the read direction over the models of the loaders (DESIGN section 8): for the core types it is C06's
-   `dec (enc x ++ rest) = (x, rest)` composed with (b); for files with other admissible choices it is stated here *)
-Definition C07_reads_conform_bv_statement : Prop := forall m B f,
-  F.lenN B + 2 ^ 20 < 2 ^ 64 -> f = F.doc_encode_bv F.no_sup B ->
-  exists b, c_dec (bv_codec m) (flat_map Stream.le64 f) = Stream.IoOk (b, []) /\
-            abs_raw (bv_data b) = B /\ bv_ones b = count B /\
-            bv_rank b = None /\ bv_select b = None /\ bv_select_zero b = None.
+(* the read direction over the models of the loaders (a file produced from the document alone loads and answers every
+   query): proved for every documented type, see C07_reads_conform_* in Props/C07_read.v *)
 
 (* ================================================================== non-vacuity / instances *)
 
